@@ -61,6 +61,7 @@ def wrapped_conversion(path_in, array_reduction, path_out, frame_slice, channels
     if not _audit_installed:
         sys.addaudithook(_audit)
         _audit_installed = True
+    _log({'ev': 'task_begin', 'task': path_in})
     _delay(path_in, 'before')
     _current_task[0] = path_in
     _log({'ev': 'start', 'task': path_in})
@@ -74,6 +75,7 @@ def wrapped_conversion(path_in, array_reduction, path_out, frame_slice, channels
     finally:
         _current_task[0] = None
         _delay(path_in, 'after')
+        _log({'ev': 'task_end', 'task': path_in})
 
 
 def _rel(path):
